@@ -233,7 +233,7 @@ func runCheck(prop, tier string, repo, hdir string, jobs int, seed int64) int {
 	exit := 0
 	var results []*harnessResult
 	var engineErrs []string
-	for _, hs := range spec.Harnesses {
+	for hidx, hs := range spec.Harnesses {
 		ts := hs.Quick
 		if tier == "thorough" {
 			ts = hs.Thorough
@@ -312,7 +312,7 @@ func runCheck(prop, tier string, repo, hdir string, jobs int, seed int64) int {
 					// keep the replay file
 					rdir := filepath.Join(root, "replays", prop)
 					os.MkdirAll(rdir, 0755)
-					dst := filepath.Join(rdir, fmt.Sprintf("%s-%s", hs.Fn, name))
+					dst := filepath.Join(rdir, fmt.Sprintf("%s-%d-%s", hs.Fn, hidx, name))
 					b, _ := os.ReadFile(filepath.Join(mdir, name))
 					os.WriteFile(dst, b, 0644)
 					r.File = dst
